@@ -368,7 +368,7 @@ class Program:
             fn = node.func
             # str methods on folded receivers
             if isinstance(fn, ast.Attribute) and fn.attr in ("lstrip", "rstrip", "strip", "lower", "upper", "split", "keys", "values", "items", "replace", "startswith", "endswith", "join", "format", "zfill", "rjust", "ljust", "title", "capitalize",
-                                                             "partition", "rpartition", "rsplit", "splitlines", "casefold", "isdigit"):
+                                                             "partition", "rpartition", "rsplit", "splitlines", "casefold", "isdigit", "find", "rfind", "index", "count"):
                 recv = f(fn.value)
                 args = [f(a) for a in node.args]
                 if fn.attr in ("keys", "values", "items"):
@@ -381,6 +381,11 @@ class Program:
                         return recv.format(*args, **kw_)
                     return getattr(recv, fn.attr)(*args)
                 raise CannotFold(f"method on non-str: {unparse(node)}")
+            if isinstance(fn, ast.Attribute) and fn.attr == "get" and 1 <= len(node.args) <= 2 and not node.keywords:
+                recv = f(fn.value)
+                if isinstance(recv, dict):
+                    return recv.get(*[f(a) for a in node.args])
+                raise CannotFold(f"get on non-dict: {unparse(node)[:60]}")
             cname = unparse(fn)
             if env is not None and cname in env.get("__stubs__", {}):
                 return env["__stubs__"][cname](f, node)          # an abstract callee supplied by the rule (gets the folder and the call)
@@ -535,7 +540,7 @@ class Program:
                     self._propagate(mod, st.body, env, who, depth + 1)
             elif isinstance(st, ast.If):
                 self._propagate(mod, st.body if self.fold(mod, st.test, env) else st.orelse, env, who, depth + 1)
-            elif isinstance(st, ast.Pass):
+            elif isinstance(st, (ast.Pass, ast.Assert)):
                 continue
             else:
                 raise CannotFold(f"helper not foldable: {who} (statement `{unparse(st)[:50]}`)")
